@@ -11,3 +11,5 @@ pub mod names;
 pub mod mtls;
 pub mod stall;
 pub mod frames;
+pub mod shutdown;
+pub mod multitopic;
